@@ -361,10 +361,11 @@ def _community(value: str) -> Community:
 
         prefix_int, suffix_int = int(prefix), int(suffix)
 
-        if prefix_int > Community.MAX:
+        # each half of the ASN:value form is a 16 bits number
+        if prefix_int > _SIZE_H:
             raise ValueError('invalid community {} (prefix too large)'.format(value))
 
-        if suffix_int > Community.MAX:
+        if suffix_int > _SIZE_H:
             raise ValueError('invalid community {} (suffix too large)'.format(value))
 
         return Community(pack('!L', (prefix_int << 16) + suffix_int))
